@@ -5,6 +5,8 @@ import (
 	"bytes"
 	"fmt"
 	"strconv"
+	"strings"
+	"sync/atomic"
 	"time"
 	"unicode/utf8"
 
@@ -100,10 +102,37 @@ type Plan struct {
 
 var special = []string{"", "a", "x-y_z.0", "null", "~", "0x1", "010", "1e3", "true", "no", ": ", "- x", "a: b", "#c", "'q'", "\"dq\"", "line1\nline2", " lead", "trail ", "\ttab", "üñí©ødé ✓", "{}", "[]", "!!str x", "&a", "*a", "%", "@", "`", "|", ">", "a\\b", "long-" + string(bytes.Repeat([]byte("x"), 300))}
 
+// yamlLeadingTabBlock is the shape of the known finding c18-yaml-multiline-leading-whitespace: a multi-line string
+// whose first non-empty line starts with a space or a tab.
+func yamlLeadingTabBlock(s string) bool {
+	isBreak := func(r rune) bool { return r == '\n' || r == '\r' || r == 0x85 || r == 0x2028 || r == 0x2029 }
+
+	if !strings.ContainsFunc(s, isBreak) {
+		return false
+	}
+
+	for _, line := range strings.FieldsFunc(s, isBreak) {
+		if line != "" {
+			return strings.HasPrefix(line, " ") || strings.HasPrefix(line, "\t")
+		}
+	}
+
+	return false
+}
+
+// Excluded counts strings replaced because they have the shape of an open known finding.
+var Excluded atomic.Int64
+
 func genStr(t *rapid.T, label string) string {
 	if rapid.IntRange(0, 3).Draw(t, label+"-kind") == 0 {
 		s := rapid.String().Draw(t, label+"-any")
 		if utf8.ValidString(s) {
+			if yamlLeadingTabBlock(s) && hk.KnownOpen("c18-yaml-multiline-leading-whitespace") {
+				Excluded.Add(1)
+
+				return "excluded-known-finding"
+			}
+
 			return s
 		}
 	}
